@@ -104,6 +104,11 @@ func Decorate(t *rapid.T, g *Grammar, o DecorateOpts) map[string]bool {
 						feat["special-rune-in-class"] = true
 					}
 				}
+				if pct(4, "inverted?") {
+					// a range written backwards is accepted by the front end and matches nothing
+					e.Items = append(e.Items, Item{Lo: 'z', Hi: 'q'})
+					feat["inverted-range"] = true
+				}
 			}
 		})
 	}
